@@ -12,7 +12,7 @@ type Config struct {
 }
 
 type Result struct {
-	Outcome   string  // finished | deadlock | stepcap
+	Outcome   string // finished | deadlock | stepcap
 	Steps     int
 	Contended int
 	Blocks    int
